@@ -18,6 +18,13 @@ from commonroad.scenario.trajectory import Trajectory
 from contracts.c01 import RoundTrip, initial_state, mk_planning_problems, mk_scenario, pos, positive
 from pyvc.contract import B, Contract, R, T, conj, register, scratch_dir
 
+import pyvc.contract as _pc
+import spec.approx as _sa
+
+# frame comparisons: the vertices of a Polygon are constructor data, not a cache (see spec/approx.py)
+_sa.POLYGON_VERTICES_PRIMARY = True
+_pc.POLYGON_VERTICES_PRIMARY[0] = True
+
 
 def custom_states_obstacle(F):
     """dynamic obstacle whose trajectory states have velocity / velocity_y but no orientation attribute"""
@@ -280,3 +287,37 @@ for _n in DRAW_CASES:
     if DRAW_CASES[_n]["labels"] and os.environ.get("VERIF_TIER") != "thorough":
         continue  # the label-angle paths (atan2, degrees) take 4-5 min: thorough tier only
     register(DrawReadOnly(_n))
+
+
+# ------------------------------------------------------------------------------ drawing obstacles
+# The C19 contract "patches drawn = occupancies reported" (contracts/c19.py Drawn) run once more as a frame condition:
+# same builders, same call (obstacle.draw -> MPRenderer.draw_*_obstacle -> _draw_occupancy -> draw_rectangle / circle /
+# polygon), postcondition: the scenario holding the obstacle is unchanged.
+
+from contracts.c19 import Drawn as _Drawn  # noqa: E402
+
+
+class DrawObstacleReadOnly(_Drawn):
+    prop = "C18"
+
+    def __init__(self, kind, wname, symbolic_t=False):
+        super().__init__(kind, wname, symbolic_t)
+        self.case = "read-only operation: drawing an obstacle (%s)" % self.case
+        self.describe = "every observable attribute of the scenario and of the drawn obstacle is unchanged"
+
+    def build(self, F):
+        inp = super().build(F)
+        inp["snap"] = F.snapshot(inp["sc"])
+        return inp
+
+    def post(self, F, inp, out):
+        from spec.approx import approx_parts
+
+        yield ("raises nothing", out.exc is None)
+        yield ("scenario unchanged",) + approx_parts(inp["snap"], inp["sc"], 0, F, path="scenario")
+
+
+for _kind in ("static rectangle", "static circle", "dynamic without prediction", "dynamic with trajectory", "environment"):
+    register(DrawObstacleReadOnly(_kind, None, symbolic_t=True))
+for _kind in ("dynamic with set-based prediction", "phantom"):
+    register(DrawObstacleReadOnly(_kind, "window over everything"))
